@@ -703,64 +703,64 @@ type stdEffect struct {
 }
 
 var stdTable = map[string]stdEffect{
-	"sort.Ints":                        {writeElem: []int{0}},
-	"sort.SearchInts":                  {pure: true},
-	"sort.Search":                      {callsArg: []int{1}},
-	"sort.Slice":                       {writeElem: []int{0}, callsArg: []int{1}},
-	"sort.Sort":                        {callsArg: []int{0}},
-	"sort.Stable":                      {callsArg: []int{0}},
-	"container/heap.Init":              {callsArg: []int{0}},
-	"container/heap.Push":              {callsArg: []int{0}},
-	"container/heap.Pop":               {callsArg: []int{0}},
-	"container/heap.Fix":               {callsArg: []int{0}},
-	"container/heap.Remove":            {callsArg: []int{0}},
-	"bytes.Compare":                    {pure: true},
-	"bytes.Equal":                      {pure: true},
-	"bytes.NewReader":                  {fresh: true, retainRO: []int{0}},
-	"(*bytes.Reader).ReadByte":         {writeDeep: []int{0}},
-	"errors.New":                       {fresh: true},
-	"fmt.Errorf":                       {fresh: true},
-	"fmt.Sprintf":                      {pure: true},
-	"fmt.Sprint":                       {pure: true},
-	"fmt.Println":                      {pure: true},
-	"fmt.Printf":                       {pure: true},
-	"fmt.Fprintf":                      {writeDeep: []int{0}},
-	"fmt.Fprint":                       {writeDeep: []int{0}},
-	"fmt.Fprintln":                     {writeDeep: []int{0}},
-	"io.WriteString":                   {writeDeep: []int{0}},
-	"io.ReadFull":                      {writeDeep: []int{0}, writeElem: []int{1}},
-	"strings.HasPrefix":                {pure: true},
-	"(*strings.Builder).WriteString":   {writeDeep: []int{0}},
-	"(*strings.Builder).String":        {pure: true},
-	"math.Sqrt":                        {pure: true},
-	"math/bits.LeadingZeros64":         {pure: true},
-	"math/bits.TrailingZeros":          {pure: true},
-	"math/bits.TrailingZeros64":        {pure: true},
-	"math/bits.Len64":                  {pure: true},
-	"math/bits.Len":                    {pure: true},
-	"math/bits.OnesCount":              {pure: true},
-	"math/bits.OnesCount64":            {pure: true},
-	"math/bits.Mul64":                  {pure: true},
-	"math/bits.Div64":                  {pure: true},
-	"math/bits.Add64":                  {pure: true},
-	"math/rand.NewSource":              {fresh: true},
-	"math/rand.New":                    {fresh: true, retain: []int{0}},
-	"(*math/rand.Rand).Float64":        {writeDeep: []int{0}},
-	"(*math/rand.Rand).Intn":           {writeDeep: []int{0}},
-	"container/list.New":               {fresh: true},
-	"(*container/list.List).Len":       {pure: true},
-	"(*container/list.List).Front":     {retArg: []int{0}},
-	"(*container/list.List).PushBack":  {writeDeep: []int{0}, retArg: []int{0}},
-	"(*container/list.List).Remove":    {writeDeep: []int{0}},
-	"encoding/gob.NewEncoder":          {fresh: true, retain: []int{0}},
-	"encoding/gob.NewDecoder":          {fresh: true, retain: []int{0}},
-	"(*encoding/gob.Encoder).Encode":   {writeDeep: []int{0}},
-	"(*encoding/gob.Decoder).Decode":   {writeDeep: []int{0}, decode: []int{1}},
-	"text/tabwriter.NewWriter":         {fresh: true, retain: []int{0}},
-	"(*text/tabwriter.Writer).Flush":   {writeDeep: []int{0}},
-	"(*text/tabwriter.Writer).Init":    {writeDeep: []int{0}, retArg: []int{0}},
-	"unicode/utf8.RuneLen":             {pure: true},
-	"strconv.Itoa":                     {pure: true},
+	"sort.Ints":                       {writeElem: []int{0}},
+	"sort.SearchInts":                 {pure: true},
+	"sort.Search":                     {callsArg: []int{1}},
+	"sort.Slice":                      {writeElem: []int{0}, callsArg: []int{1}},
+	"sort.Sort":                       {callsArg: []int{0}},
+	"sort.Stable":                     {callsArg: []int{0}},
+	"container/heap.Init":             {callsArg: []int{0}},
+	"container/heap.Push":             {callsArg: []int{0}},
+	"container/heap.Pop":              {callsArg: []int{0}},
+	"container/heap.Fix":              {callsArg: []int{0}},
+	"container/heap.Remove":           {callsArg: []int{0}},
+	"bytes.Compare":                   {pure: true},
+	"bytes.Equal":                     {pure: true},
+	"bytes.NewReader":                 {fresh: true, retainRO: []int{0}},
+	"(*bytes.Reader).ReadByte":        {writeDeep: []int{0}},
+	"errors.New":                      {fresh: true},
+	"fmt.Errorf":                      {fresh: true},
+	"fmt.Sprintf":                     {pure: true},
+	"fmt.Sprint":                      {pure: true},
+	"fmt.Println":                     {pure: true},
+	"fmt.Printf":                      {pure: true},
+	"fmt.Fprintf":                     {writeDeep: []int{0}},
+	"fmt.Fprint":                      {writeDeep: []int{0}},
+	"fmt.Fprintln":                    {writeDeep: []int{0}},
+	"io.WriteString":                  {writeDeep: []int{0}},
+	"io.ReadFull":                     {writeDeep: []int{0}, writeElem: []int{1}},
+	"strings.HasPrefix":               {pure: true},
+	"(*strings.Builder).WriteString":  {writeDeep: []int{0}},
+	"(*strings.Builder).String":       {pure: true},
+	"math.Sqrt":                       {pure: true},
+	"math/bits.LeadingZeros64":        {pure: true},
+	"math/bits.TrailingZeros":         {pure: true},
+	"math/bits.TrailingZeros64":       {pure: true},
+	"math/bits.Len64":                 {pure: true},
+	"math/bits.Len":                   {pure: true},
+	"math/bits.OnesCount":             {pure: true},
+	"math/bits.OnesCount64":           {pure: true},
+	"math/bits.Mul64":                 {pure: true},
+	"math/bits.Div64":                 {pure: true},
+	"math/bits.Add64":                 {pure: true},
+	"math/rand.NewSource":             {fresh: true},
+	"math/rand.New":                   {fresh: true, retain: []int{0}},
+	"(*math/rand.Rand).Float64":       {writeDeep: []int{0}},
+	"(*math/rand.Rand).Intn":          {writeDeep: []int{0}},
+	"container/list.New":              {fresh: true},
+	"(*container/list.List).Len":      {pure: true},
+	"(*container/list.List).Front":    {retArg: []int{0}},
+	"(*container/list.List).PushBack": {writeDeep: []int{0}, retArg: []int{0}},
+	"(*container/list.List).Remove":   {writeDeep: []int{0}},
+	"encoding/gob.NewEncoder":         {fresh: true, retain: []int{0}},
+	"encoding/gob.NewDecoder":         {fresh: true, retain: []int{0}},
+	"(*encoding/gob.Encoder).Encode":  {writeDeep: []int{0}},
+	"(*encoding/gob.Decoder).Decode":  {writeDeep: []int{0}, decode: []int{1}},
+	"text/tabwriter.NewWriter":        {fresh: true, retain: []int{0}},
+	"(*text/tabwriter.Writer).Flush":  {writeDeep: []int{0}},
+	"(*text/tabwriter.Writer).Init":   {writeDeep: []int{0}, retArg: []int{0}},
+	"unicode/utf8.RuneLen":            {pure: true},
+	"strconv.Itoa":                    {pure: true},
 }
 
 func (f *fa) stdCall(in ssa.Instruction, v ssa.Value, name string, c *ssa.CallCommon, args []locset) {
